@@ -28,6 +28,64 @@ TEXT = {
         "note": TB + "Completeness for key-disjoint principals (C05_exact) is so far checked on the implementation's output by the driver, not yet a theorem. Only SSH keys are generated.",
         "technique": "Lean 4 proof (invariant over the principal loop) + differential correspondence",
     },
+    "C13": {
+        "text": "Proved in Lean for the model of the tufv01/tufv02 mutators, for arbitrary (also invalid) arguments and arbitrary finite "
+                "edit sequences: the allow rule stays last and only there, no user rule gets the reserved prefix, every threshold is >= 1, "
+                "every rule's principals are distinct and defined (C13_struct_preserved, C13_run_struct); the full invariant incl. "
+                "'threshold <= number of distinct principals' for edits without repeated principal ids (C13_inv_preserved_partial, "
+                "C13_run_inv_partial) while C13_F10_witness proves the unrestricted statement false for the code as it stands (F10); refused "
+                "edits leave rules/principals unchanged (C13_refused_unchanged); root roles keep 1 <= threshold <= #principals with all "
+                "principals defined, global thresholds >= 1 and unique global rule names for arbitrary arguments (C13_root_inv_preserved, "
+                "C13_root_run_inv, C13_root_refused_unchanged). The model is compared with the real objects after every edit; JSON round "
+                "trip (real encoding/json) and v01->v02 migration are checked on the real objects' queries (rules, patterns, principals, "
+                "thresholds, global rules, propagation directives, controller/network, hooks, version).",
+        "note": TB + "Round trip and migration are correspondence-checked, not Lean theorems. Name uniqueness across rule files is not covered. "
+                "Open findings on this tree: F10, F20, F21, F22.",
+        "technique": "Lean 4 proof (invariant preservation per mutator, induction over edit sequences) + differential correspondence",
+    },
+    "C06": {
+        "text": "The Go work-list of findVerifiersForPathIfProtected (rule groups, seenRoles, prepend, break on terminating-with-file, "
+                "loop bound len>1) is modelled literally with explicit fuel; C06_walk_terminates proves the fuel of findVerifiers suffices "
+                "for every finite policy (cycles, diamonds, duplicated names included). Against an inductive, queue-free description of the "
+                "documented walk (Entered / ConsultedIn / Cuts) the theorems give, for every match relation and with no size bound: "
+                "C06_walk_complete (every consulted matching rule yields a verifier; no hypothesis on names), C06_walk_sound (every verifier "
+                "comes from a consulted matching rule and carries its name, threshold and principal ids; under unique rule names, which the "
+                "loader enforces), C06_walk_sound_reach (the same without the cut-off for arbitrary graphs), C06_allow_rule_never_consulted, "
+                "C06_unprotected_iff (no verifier iff no consulted rule matches). The model is compared with the real FindVerifiersForPath on "
+                "the exact ordered verifier list including resolved keys, on raw envelope states (cycles, diamonds) and through the loader; "
+                "the spec is evaluated on the implementation's output as a multiset.",
+        "note": TB + "Open finding F23: principal ids are resolved in one map overwritten by every entered file, so a rule may carry another "
+                "file's key material for its principal id (C06_own_principals is stated, checked by the driver on the implementation's output, not proved). "
+                "Bracket classes of fnmatch and ListRules are not modelled.",
+        "technique": "Lean 4 proof (work-list invariants, fuel measure) + differential correspondence",
+    },
+    "C14": {
+        "text": "Proved in Lean over arbitrary byte strings (strings.Split / TrimSpace incl. all Unicode blanks / Cut / ParseUint / NewHash modelled "
+                "on bytes; encoding/pem.Decode and base64 of Go 1.26 modelled byte for byte): C14_parse_render_ref and C14_parse_render_prop (every "
+                "reference / propagation entry with clean values, 40/64-digit ids and a uint64 number parses back to itself from its commit message; "
+                "upstream locations may contain ':'), C14_parse_render_ann_partial (the same for annotations with 1..n ids and arbitrary message bytes, "
+                "assuming the decidable PEM contract PemRoundTrip), C14_fields_ref and C14_fields_prop (every accepted text has a ':' on every body "
+                "line and carries exactly the canonical sequence of known fields with the returned values: a missing, repeated or out-of-order "
+                "field is rejected, no text yields two values for a field), C14_parse_canonical_ref_partial, C14_F11_witness. Totality: the model is "
+                "a total function; the only index expressions of the Go parsers (lines[0], lines[1], lines[2:]) are guarded. The model is compared "
+                "with ParseEntryText (class, error kind, all fields) and with entries recorded through the real API (stored text and read-back "
+                "fields); panics are recovered per case; the property (re-render fixed point + canonical field sequence, for all three kinds incl. "
+                "annotations) is evaluated on the implementation's own output.",
+        "note": TB + "Only stated, not proved: C14_parse_render_ann without the PEM hypothesis (base64 round trip), C14_parse_canonical for all kinds "
+                "(needs: strings.TrimSpace results are clean), the field characterisation for annotations (checked by the driver on every accepted text). "
+                "Recorded names are UTF-8 and NUL / line-break free: git commit-tree rewrites other bytes (see corpus/C14/candidates).",
+        "technique": "Lean 4 proof (table-driven state machine, byte-level string lemmas) + differential correspondence",
+    },
+    "C07": {
+        "text": "Lean model of the recovery branch of VerifyRelativeForRef (last good state, fix search, re-queuing). Proved for every "
+                "queue and history: a reported fix is an unskipped entry of the affected reference whose tree equals the last good tree "
+                "(skipped entries are never the fix), and when no unskipped intermediate is flagged every entry for the reference before "
+                "the fix is skipped (C07_fix_is_unskipped_treesame, C07_intermediates_skipped). The whole-loop statement "
+                "C07_sound_statement is kept at full strength and is evaluated, as a declarative predicate on the log, on every range the "
+                "REAL verifier accepts; the model must reproduce every verdict of the real code on the generated recovery patterns.",
+        "note": TB + "Whole-loop theorem not yet proved. F3 (fix entry never verified) is an open finding that also violates C07.",
+        "technique": "Lean 4 proof of the fix-search invariants + differential correspondence on recovery patterns",
+    },
 }
 
 NOT_YET = {}
